@@ -30,7 +30,14 @@ where
             }
         }
         let mut out = f(&key, &idx);
+        // keep written-out samples only for a handful of evenly spaced points (memory)
+        let keep_sample = total < 64 || i % (total / 16).max(1) == 0;
         if let Some(o) = out.as_mut() {
+            if !keep_sample && o.violations.is_empty() {
+                o.sample = None;
+            }
+        }
+        if let Some(o) = out.as_mut().filter(|_| keep_sample) {
             if o.sample.is_none() {
                 let mut m = serde_json::Map::new();
                 m.insert("key".into(), json!(key));
